@@ -1145,6 +1145,10 @@ class Ctx:
         raise Inconclusive("solver returned unknown on obligation %s (%s)" % (label, self.solver.reason_unknown()))
 
     def feasible_model(self):
+        if self.prefer:
+            r = self._check(*self.prefer, timeout=min(self.prove_timeout_ms, 20000))
+            if r == z3.sat:
+                return self.solver.model()
         r = self._check(timeout=self.prove_timeout_ms)
         if r == z3.sat:
             return self.solver.model()
